@@ -2,28 +2,56 @@ package absnfs
 
 // C11 — only an effective root identity can assign ownership.
 
+import "bytes"
+
 func init() {
 	vpRegister("VPH_C11_setattr", VPH_C11_setattr)
 	vpRegister("VPH_C11_newobjects", VPH_C11_newobjects)
 }
 
-// vpEffective runs the real squashing on a symbolic credential and installs the result.
-func vpEffective(env *vpEnv) (uint32, uint32) {
-	uid, gid := vpU32("uid"), vpU32("gid")
-	var squash string
-	switch vpChoose("squash", 0, 2) {
-	case 0:
-		squash = "none"
-	case 1:
-		squash = "root"
-	case 2:
-		squash = "all"
+// vpCaller is a symbolic caller: credential flavor (AUTH_NONE or AUTH_SYS), wire uid/gid, and the
+// export's squash mode. eff() is the effective identity the statement of C10 prescribes for it
+// (reference, written from the statement); the requests themselves go through the real HandleCall,
+// so the identity the handlers act under is whatever the real authentication path hands them.
+type vpCaller struct {
+	flavor   uint32
+	uid, gid uint32
+	squash   string
+}
+
+func vpDrawCaller() vpCaller {
+	c := vpCaller{flavor: AUTH_SYS, uid: vpU32("uid"), gid: vpU32("gid")}
+	if vpBool("auth-none") {
+		c.flavor = AUTH_NONE
+		vpReach("auth-none")
 	}
-	env.auth.AuthSys = &AuthSysCredential{UID: uid, GID: gid}
-	res := ValidateAuthentication(env.auth, &PolicyOptions{Squash: squash})
-	vpAssume(res.Allowed)
-	env.auth.EffectiveUID, env.auth.EffectiveGID = res.UID, res.GID
-	return res.UID, res.GID
+	c.squash = []string{"none", "root", "all"}[vpChoose("squash", 0, 2)]
+	return c
+}
+
+func (c vpCaller) eff() (uint32, uint32) {
+	if c.flavor == AUTH_NONE || c.squash == "all" {
+		return 65534, 65534
+	}
+	if c.squash == "root" {
+		uid := vpIteU32(c.uid == 0, 65534, c.uid)
+		gid := vpIteU32(vpOr(c.uid == 0, c.gid == 0), 65534, c.gid)
+		return uid, gid
+	}
+	return c.uid, c.gid
+}
+
+// call sends one NFS request as this caller through HandleCall and returns the result bytes.
+func (c vpCaller) call(env *vpEnv, proc uint32, body []byte) []byte {
+	call := &RPCCall{Header: RPCMsgHeader{Xid: 5, MsgType: RPC_CALL, RPCVersion: 2, Program: NFS_PROGRAM, Version: NFS_V3, Procedure: proc},
+		Credential: RPCCredential{Flavor: c.flavor}}
+	if c.flavor == AUTH_SYS {
+		call.Credential.Body = vpAuthSysBody(1, "h", c.uid, c.gid, nil)
+	}
+	reply, err := env.h.HandleCall(call, bytes.NewReader(body), &AuthContext{ClientIP: "127.0.0.1", ClientPort: 700, Credential: &call.Credential})
+	vpAssert(vpAnd(err == nil, reply != nil), "answered")
+	vpAssert(reply.Status == MSG_ACCEPTED, "caller-admitted")
+	return vpReplyBytes(reply)
 }
 
 func vpChownsOK(fs *vpFS, euid, egid uint32) bool {
@@ -38,7 +66,8 @@ func vpChownsOK(fs *vpFS, euid, egid uint32) bool {
 
 func VPH_C11_setattr() {
 	fs := vpStdTree()
-	env := vpServer(fs, ExportOptions{})
+	who := vpDrawCaller()
+	env := vpServer(fs, ExportOptions{Squash: who.squash})
 	which := vpChoose("object", 0, 2)
 	var h uint64
 	var p string
@@ -56,13 +85,12 @@ func VPH_C11_setattr() {
 	node.attrs.Uid, node.attrs.Gid = ouid, ogid
 	fs.nodes[p].uid, fs.nodes[p].gid = ouid, ogid
 	env.clearCaches()
-	euid, egid := vpEffective(env)
+	euid, egid := who.eff()
 	s := &vpSattr{setUID: vpBool("setuid"), setGID: vpBool("setgid"), uid: vpU32("sattr-uid"), gid: vpU32("sattr-gid"), setMode: vpBool("setmode"), mode: vpU32("mode") & 0777}
 	var b vpBuf
 	b.fh(h).sattr(s).u32(0)
 	env.fs.log = nil
-	reply := env.call(NFSPROC3_SETATTR, b.Bytes())
-	vpAssert(reply != nil, "reply")
+	who.call(env, NFSPROC3_SETATTR, b.Bytes())
 	if euid != 0 {
 		vpReach("non-root")
 		// the backend never records an owner/group other than the caller's own
@@ -76,9 +104,10 @@ func VPH_C11_setattr() {
 
 func VPH_C11_newobjects() {
 	fs := vpStdTree()
-	env := vpServer(fs, ExportOptions{})
+	who := vpDrawCaller()
+	env := vpServer(fs, ExportOptions{Squash: who.squash})
 	hd := env.handleFor("/d")
-	euid, egid := vpEffective(env)
+	euid, egid := who.eff()
 	g := &vpGen{}
 	s := g.sattr("sattr")
 	s.mode &= 0777
@@ -100,8 +129,7 @@ func VPH_C11_newobjects() {
 		vpReach("symlink")
 	}
 	env.fs.log = nil
-	reply := env.call(proc, b.Bytes())
-	rd := &vpRd{b: vpReplyBytes(reply)}
+	rd := &vpRd{b: who.call(env, proc, b.Bytes())}
 	status := rd.u32()
 	vpAssume(status == NFS_OK)
 	n := fs.nodes["/d/new"]
